@@ -139,6 +139,11 @@ pub(crate) struct Env {
     /// loops to completion.
     pub(crate) stop_at_last_toplevel_expr: bool,
 
+    /// How many values the most recent evaluation put back on the
+    /// value stack of the current frame when it stopped with an
+    /// error. `:skip` discards them along with the failed expression.
+    pub(crate) values_restored_by_last_error: usize,
+
     /// Refuse to run code might modify the system, such as filesystem
     /// access or shell commands. This should allow us to run
     /// arbitrary code safely.
@@ -214,6 +219,7 @@ impl Env {
             enforce_sandbox: false,
             stop_at_expr_id: None,
             stop_at_last_toplevel_expr: false,
+            values_restored_by_last_error: 0,
             id_gen,
             vfs,
             initial_state: None,
